@@ -82,10 +82,14 @@ pub fn driver_facts(trace: &[Value]) -> (i64, i64, i64) {
             // the endpoint reuses connection handles: a new connection under an old key
             drained.remove(&key);
         } else if ev == "EpEvent" && e["drained"] == true {
-            drained.insert(key);
+            // a second Drained notification is output of a drained connection, too
+            if !drained.insert(key) {
+                after += 1;
+            }
         } else if drained.contains(&key)
-            && (ev == "Tx" || (ev == "AppEvent" && e["e"]["k"] != "ConnectionLost"))
+            && (ev == "Tx" || ev == "Timeout" || (ev == "AppEvent" && e["e"]["k"] != "ConnectionLost"))
         {
+            // ... as is a timer that is still armed (poll_timeout must be None once drained)
             after += 1;
         }
         if ev == "Spurious" && e["same"] == false {
